@@ -21,6 +21,7 @@ pub fn model(tier: Tier, world: &str) -> Hist {
     let (w, s0) = world_by_name(if world.is_empty() { "A" } else { world });
     let roots = standard_roots(&w, &s0, false);
     let mut alpha = Alphabet::standard(vec![0, 1], vec![0, 1]);
+    alpha.receivership = true;
     alpha.collect = true;
     alpha.pulse = true;
     alpha.max_clock_devs = if tier == Tier::Quick { 1 } else { 2 };
@@ -103,6 +104,7 @@ fn sweep(tier: Tier, w: &World, s0: &Store, st: &mut SweepStats) {
                                     g.group_flags = if pf { g.group_flags | 1 } else { g.group_flags & !1 };
                                 });
                                 let pre = rf::bank_nums(&s, b);
+                                let forged = s.clone();
                                 let r = act::apply(w, &mut s, &Action::Accrue { b: 0 });
                                 st.evals += 1;
                                 let rep = json!({"model": "C06a", "curve": cname, "fees": [fv.0, fv.1, fv.2, fv.3], "program_fees": pf, "deposits": d_tokens, "util": [un, ud], "asv": asv, "lsv": lsv, "dt": dt});
@@ -156,6 +158,40 @@ fn sweep(tier: Tier, w: &World, s0: &Store, st: &mut SweepStats) {
                                         "C06.conservation",
                                         format!("delta liabilities {:.9} != delta deposits {:.9} + fees {:.9} (residual {:.3e}, allowance {:.3e})", rf::qf64(&d_l), rf::qf64(&d_d), rf::qf64(&d_f), rf::qf64(&resid), af),
                                     );
+                                }
+                                // interest is brought up to the current time: with debt outstanding, a positive borrowing rate
+                                // (taken from the program's own rate function, which C18 judges) and an elapsed time whose
+                                // interest is well above the resolution of the share value, the debt share value has grown
+                                {
+                                    use marginfi::state::interest_rate::InterestRateConfigImpl;
+                                    let (bk0, g0) = (world::bank(&forged, &b.key), world::group(&forged, &w.group));
+                                    if dt > 0 && pre.l_sh > 0 && pre.a_sh > 0 {
+                                        let util = rf::qf64(&(pre.liabs() / pre.deposits()));
+                                        let rates = std::panic::catch_unwind(std::panic::AssertUnwindSafe(|| bk0.config.interest_rate_config.create_interest_rate_calculator(&g0).calc_interest_rate(I80F48::from_num(util.min(1.0)))));
+                                        if let Ok(Some(rates)) = rates {
+                                            let growth = rates.borrowing_rate_apr.to_num::<f64>() * dt as f64 / 31_536_000.0 * lsv;
+                                            if growth > 1e-9 && post.lsv <= pre.lsv {
+                                                fail("C06.fresh_state", format!("accrual over {dt} s at a borrowing rate of {} left the debt share value at {} (expected growth about {growth:.3e})", rates.borrowing_rate_apr, rf::qf64(&rf::q_raw(post.lsv))));
+                                            }
+                                        }
+                                    }
+                                }
+                                // the bank's position counters are bookkeeping (banks older than the counters carry
+                                // totals without them): the same bank with its counters at zero accrues the same interest
+                                for counters in [0i32, 1, 7] {
+                                    let mut t = forged.clone();
+                                    world::edit_bank(&mut t, &b.key, |bk| {
+                                        bk.lending_position_count = counters;
+                                        bk.borrowing_position_count = counters;
+                                    });
+                                    let rt = act::apply(w, &mut t, &Action::Accrue { b: 0 });
+                                    st.evals += 1;
+                                    let twin = rf::bank_nums(&t, b);
+                                    if !rt.committed || twin.asv != post.asv || twin.lsv != post.lsv || twin.f_ins != post.f_ins || twin.f_grp != post.f_grp || twin.f_prog != post.f_prog || world::bank(&t, &b.key).last_update != world::bank(&s, &b.key).last_update {
+                                        {
+                                            fail("C06.fresh_state", format!("the same bank with its position counters at {counters} accrues differently over {dt} s: liability share value {} instead of {} (committed: {})", rf::qf64(&rf::q_raw(twin.lsv)), rf::qf64(&rf::q_raw(post.lsv)), rt.committed));
+                                        }
+                                    }
                                 }
                                 // idempotence: a second accrual at the same time changes nothing but the cache
                                 let k1 = crate::canon::state_key(&s, &[]);
